@@ -1,8 +1,8 @@
 import ast, os
-exec(open('/tmp/explore/kern.py').read().split("# top-level function defs")[0])
+exec(open('/verif/notes/exploration/kern.py').read().split("# top-level function defs")[0])
 # class names that are ArrayExpr subclasses (by simple name, from classes.txt)
 exprcls=set()
-for l in open('/tmp/explore/classes.txt'):
+for l in open('/verif/notes/exploration/classes.txt'):
     if l.startswith('dask_array.'): exprcls.add(l.split(' ')[0].split('.')[-1])
 SINKS=exprcls|{'blockwise','map_blocks','ArrayValuesDep','ArrayBlockIdDep','ArraySliceDep','ArrayOffsetDep','ArrayChunkShapeDep'}
 LAY={'chunks','numblocks','chunksize'}
